@@ -121,3 +121,36 @@ pub fn hyphen_point_inside_sequence(text: &str) -> bool {
     }
     false
 }
+
+/// KF-3: a Hebrew letter (possibly with combining marks of its own), a '-' and an
+/// *alphanumeric combining mark* in a row (e.g. U+05E1 '-' U+06ED). UAX #14 forbids a break after "Hebrew letter +
+/// hyphen" (LB21a) and attaches the mark to the hyphen (LB9), so the position
+/// after the mark is no break opportunity; the hyphen splitter, however, splits
+/// between the hyphen and the mark (both neighbours are alphanumeric). Once
+/// that split has put the mark at the start of a line, a second pass treats it
+/// as an ordinary letter (LB10) and finds the opportunity after it.
+#[cfg(feature = "ulb")]
+pub fn hebrew_hyphen_mark(text: &str) -> bool {
+    use unicode_linebreak::{break_property, BreakClass};
+    let cs: Vec<char> = text.chars().collect();
+    let is_mark = |c: char| matches!(break_property(c as u32), BreakClass::CombiningMark | BreakClass::ZeroWidthJoiner);
+    for i in 1..cs.len().saturating_sub(1) {
+        if cs[i] != '-' || !(cs[i + 1].is_alphanumeric() && is_mark(cs[i + 1])) {
+            continue;
+        }
+        // the Hebrew letter may carry marks of its own (LB9: "HL CM*" acts as HL)
+        let mut k = i;
+        while k > 0 && is_mark(cs[k - 1]) {
+            k -= 1;
+        }
+        if k > 0 && break_property(cs[k - 1] as u32) == BreakClass::HebrewLetter {
+            return true;
+        }
+    }
+    false
+}
+
+#[cfg(not(feature = "ulb"))]
+pub fn hebrew_hyphen_mark(_text: &str) -> bool {
+    false
+}
